@@ -509,6 +509,9 @@ func caseAsm(t *testing.T, tp *simrt.Tape, c *Ctx) (res Result) {
 	}
 	readerStats(&res, v.rd)
 	res.SchedHash = schedHash(v.out.Trace)
+	res.Orders = append(res.Orders, v.out.Orders...)
+	res.Orders = append(res.Orders, pf.out.Orders...)
+	res.Orders = append(res.Orders, base.out.Orders...)
 	res.stat("map-ranges-permuted", int64(v.out.MapRanges))
 	if v.out.Tasks > 2 {
 		res.stat("probe.for-expander-ran", 1)
